@@ -269,12 +269,16 @@ static const a_real w3k[] = {-1, 0, 1, 0, 1, 2, 1, 2, 3};
 // a table that is not sorted by position (left shoulder, right shoulder, middle): the active sets need not be neighbours in table order
 static const a_real u3e[] = {TRI, -1, -1, 0, TRI, 0, 1, 1, TRI, -1, 0, 1};
 static const a_real u3k[] = {-2, 3, 0, 1, -1, 2, 4, 0, -3};
+// two enormously wide ramps and one ordinary triangle: on the whole input lattice the ramps fire with degrees around 1e-9 (far above
+// the activity threshold epsilon, far from crossing it), so away from the triangle the total firing strength of product-type rules is
+// positive but around 1e-18 - a normalisation guarded by "sum > epsilon" instead of "sum > 0" gives up there
+static const a_real n3e[] = {A_MF_LINS, -8, (a_real)1e10, A_MF_LINZ, (a_real)-1e10, 8, A_MF_TRI, -1, 0, 1};
 static const a_real g3e[] = {A_MF_GAUSS, 1, -1, A_MF_GBELL, 1, 2, 0, A_MF_GAUSS, 1, 1};
 static const a_real m7e[] = {TRI, -1.5, -1.5, -1, TRI, -1.5, -1, -.5, TRI, -1, -.5, 0, TRI, -.5, 0, .5, TRI, 0, .5, 1, TRI, .5, 1, 1.5, TRI, 1, 1.5, 1.5};
 static const a_real m7kp[] = {-3, -3, -2, -2, -1, 0, 0, -3, -3, -2, -1, -1, 0, 1, -2, -2, -2, -1, 0, 1, 1, -2, -2, -1, 0, 1, 2, 2, -1, -1, 0, 1, 1, 2, 2, -1, 0, 1, 2, 2, 2, 3, 0, 0, 2, 2, 2, 3, 3};
 static const a_real mixe[] = {A_MF_LINZ, -2, -1, A_MF_PI, -2, -1, 1, 2, A_MF_LINS, 1, 2}; // ramps at both ends, pi-shaped centre
 struct Base { const char *name; unsigned n, active; const a_real *me, *mec, *kp, *ki, *kd; };
-static const Base BASES[8] = {
+static const Base BASES[9] = {
     {"3x3 shoulder triangles (test/pid_fuzzy.h)", 3, 2, m3e, m3ec, m3kp, m3ki, m3kd},
     {"5x5 trapezoid shoulders", 5, 2, m5e, m5e, m5k, m5k, nullptr},
     {"3x3 wide triangles, 3 active", 3, 3, w3e, w3e, w3k, nullptr, w3k},
@@ -283,6 +287,7 @@ static const Base BASES[8] = {
     {"3x3 ramps + pi", 3, 2, mixe, mixe, w3k, w3k, w3k},
     {"3x3 shoulder triangles without a kp table", 3, 2, m3e, m3ec, nullptr, m3ki, m3kd},
     {"3x3 unsorted table (left, right, middle)", 3, 2, u3e, u3e, u3k, u3k, u3k},
+    {"2 huge ramps + triangle (tiny firing strengths)", 3, 3, n3e, n3e, u3k, u3k, u3k},
 };
 static const unsigned OPRS[7] = {A_PID_FUZZY_EQU, A_PID_FUZZY_CAP, A_PID_FUZZY_CAP_ALGEBRA, A_PID_FUZZY_CAP_BOUNDED, A_PID_FUZZY_CUP, A_PID_FUZZY_CUP_ALGEBRA, A_PID_FUZZY_CUP_BOUNDED};
 static const char *OPRN[7] = {"equ", "cap", "cap_algebra", "cap_bounded", "cup", "cup_algebra", "cup_bounded"};
@@ -307,6 +312,9 @@ static void inference(bool thorough)
         {
             if (!R.shard.mine(item++)) { continue; }
             vx::tick();
+            // with degrees around 1e-8 the operators written with a cancelling difference (1-(1-a)(1-b), a+b-1) lose half their digits by
+            // their own documented formula: the tiny-strength base is run with the five operators that stay accurate there
+            if (B.me == n3e && (OPRS[o] == A_PID_FUZZY_EQU || OPRS[o] == A_PID_FUZZY_CAP_BOUNDED)) { continue; }
             std::vector<unsigned char> raw(A_PID_FUZZY_BFUZZ(B.active) + 128, 0xCB);
             a_pid_fuzzy c;
             memset(&c, 0, sizeof c);
